@@ -173,15 +173,15 @@ VARIANTS = [{"label": "optimized"}, {"label": "unoptimized", "opts": {"optimized
 def run(ck):
     quick = ck.tier == "quick"
     rnd = random.Random(ck.seed + 8)
-    base = jgen.expr_cases(ck.seed * 31 + 8, 130 if quick else 2500, depth=3)
-    base += jgen.expr_cases(ck.seed * 31 + 9, 170 if quick else 3500, start_id=len(base) + 1, depth=3, rich=True)
-    base += jgen.expr_cases(ck.seed * 31 + 10, 120 if quick else 2500, start_id=len(base) + 1, depth=3, numeric=True)
-    base += jgen.random_cases(ck.seed * 31 + 88, 120 if quick else 3000, start_id=len(base) + 1, features=("loopcontrols", "safe"))
+    base = jgen.expr_cases(ck.seed * 31 + 8, 130 if quick else 900, depth=3)
+    base += jgen.expr_cases(ck.seed * 31 + 9, 170 if quick else 1300, start_id=len(base) + 1, depth=3, rich=True)
+    base += jgen.expr_cases(ck.seed * 31 + 10, 120 if quick else 900, start_id=len(base) + 1, depth=3, numeric=True)
+    base += jgen.random_cases(ck.seed * 31 + 88, 120 if quick else 1000, start_id=len(base) + 1, features=("loopcontrols", "safe"))
     for c in base:
         c.pop("emit_values", None)
     # the same expressions in positions that go through the optimizer pass instead of the
     # compile-time folding of output nodes: {% set v = expr %}{{ v }} and {% if expr %}
-    nexpr = 300 if quick else 6000
+    nexpr = 300 if quick else 2200
     for c in list(base[:nexpr]):
         e = c["tpls"]["main"]["body"][0]["e"]
         body = [J.Set("v", e), J.Out(J.Name("v")), J.If([e], [[J.Text("T")]], [J.Text("F")])]
@@ -191,8 +191,11 @@ def run(ck):
     # A' : autoescape-wrapped variants (static on / static off / decided at runtime)
     wrapped = [wrap_autoescape(c, rnd, len(base) + 1 + i) for i, c in enumerate(base) if len(c["tpls"]) == 1]
     A = base + wrapped
-    obsA, rA = jrun.spec_results("C08", A, name="A", timeout=3000)
-    ck.add_tlc(rA, f"Jinja.tla programs with variables ({len(A)})")
+    obsA = {}
+    for bi, batch in enumerate(core.chunks(A, 6000)):
+        o, rA = jrun.spec_results("C08", batch, name=f"A{bi}", timeout=3000)
+        obsA.update(o)
+        ck.add_tlc(rA, f"Jinja.tla programs with variables, batch {bi} ({len(batch)})")
     # B : constants written in
     B = []
     for c in A:
@@ -206,8 +209,11 @@ def run(ck):
                 b = inline_case(c, di, len(A) + len(B) + 1, rnd)
                 if b is not None:
                     B.append(b)
-    obsB, rB = jrun.spec_results("C08", B, name="B", timeout=3000)
-    ck.add_tlc(rB, f"Jinja.tla programs with the data written in as literals ({len(B)})")
+    obsB = {}
+    for bi, batch in enumerate(core.chunks(B, 12000)):
+        o, rB = jrun.spec_results("C08", batch, name=f"B{bi}", timeout=3000)
+        obsB.update(o)
+        ck.add_tlc(rB, f"Jinja.tla programs with the data written in as literals, batch {bi} ({len(batch)})")
     # C08_LiftInvariant on the spec's own observables
     nlift = 0
     for b in B:
